@@ -15,6 +15,7 @@ from sa.ctx import Ctx, short, stmt_key
 from sa.cfg import NORMAL, describe_path
 from sa.report import Report
 from sa import pat, lattice
+from sa.util import fact_in
 from rules.C08 import cfg_root
 
 
@@ -93,7 +94,7 @@ class C18:
             raise AnalysisError("Runnable.run: reset of in_backoff to 0 not found")
         for n in resets:
             facts = ctx.facts(f).facts(n)
-            rep.check("C18.L2", "run|reset", ctx.line(f, n.ast), ("self.__clear_on_success", True) in facts, "reset guarded by __clear_on_success",
+            rep.check("C18.L2", "run|reset", ctx.line(f, n.ast), fact_in(facts, "self.__clear_on_success", True), "reset guarded by __clear_on_success",
                       "in_backoff is reset without consulting __clear_on_success (a call that did nothing clears the backoff)")
         # re-arm on every path into do()
         rearm = lambda m: _stores(m, "__clear_on_success", "True")   # noqa: E731
@@ -297,7 +298,7 @@ class C18:
         good = len(qa) == 1 and qa[0].value is not None and pat.match("queue.Queue()", qa[0].value) is not None
         rep.check("C18.L9", "queue|FIFO", init, good, "queue.Queue()", "the notification queue is `%s`, not an unbounded FIFO queue.Queue()" % (ast.unparse(qa[0].value) if qa and qa[0].value else None))
         nt = N.methods["notify"]
-        calls = [n for n in ctx.own_nodes(nt) if isinstance(n, ast.Call)]
+        calls = [n for n in ctx.own_nodes(nt) if isinstance(n, ast.Call) and isinstance(n.func, ast.Attribute) and pat.match("self.__queue", n.func.value) is not None]
         good = len(calls) == 1 and pat.match("self.__queue.put(%s)" % nt.params()[1], calls[0]) is not None
         rep.check("C18.L9", "notify|put", nt, good, "one put of the notification", "notify() does more / other than one put of its argument")
         do = N.methods["do"]
